@@ -102,6 +102,10 @@ type World struct {
 	NPs  []NP
 	ANPs []ANP
 	BANP *ANP
+	// ingress objects
+	Svcs   []Svc
+	Ings   []Ing
+	Routes []Route
 }
 
 // ---------- selector semantics (independent of apimachinery) ----------
